@@ -42,6 +42,36 @@ func genMode(r *vlib.R) string {
 	return vlib.Pick(r, []string{"bogus", "Enforce", "on"})
 }
 
+// genN3Op: one hashed-denial validation on the current ledger: names zero to five labels below the
+// apex or below an existing name (labels from a small alphabet, so that later proofs re-use memoised
+// hashes), name error or NODATA, with or without the request tree's memo.
+func genN3Op(r *vlib.R) string {
+	d := vlib.Pick(r, []int{0, 1, 1, 2, 2, 3, 4, 5})
+	labels := "-"
+	if d > 0 {
+		ls := make([]string, d)
+		for i := range ls {
+			ls[i] = vlib.Pick(r, []string{"a", "b", "c", "x", "host", "other"})
+		}
+		labels = strings.Join(ls, ".")
+	}
+	return fmt.Sprintf("n3 %s %s %s %s", vlib.Pick(r, []string{"nx", "nx", "nodata"}), vlib.Pick(r, []string{"apex", "apex", "host"}), labels, vlib.B(r.Chance(2, 3)))
+}
+
+// genN3Case: a ledger whose NSEC3 allowance sits around what a few proofs cost.
+func genN3LedgerCase(r *vlib.R, emit func(string), dflt string) int {
+	raw := [nKinds]uint32{}
+	raw[6] = uint32(vlib.Pick(r, []int{1, 2, 3, 4, 5, 6, 8, 12, 0}))
+	emit(fmt.Sprintf("ledger new %s %s %s", vlib.Pick(r, []string{"enforce", "enforce", "enforce", "shadow", "off"}), u32csv(raw), dflt))
+	n := r.Range(3, 9)
+	for i := 0; i < n; i++ {
+		emit(genN3Op(r))
+	}
+	emit("ledger enf")
+	emit("ledger snap")
+	return n + 3
+}
+
 func genLedgerCase(r *vlib.R, emit func(string), dflt string) int {
 	mode := genMode(r)
 	raw := genCaps(r, true)
@@ -53,7 +83,9 @@ func genLedgerCase(r *vlib.R, emit func(string), dflt string) int {
 	n := r.Range(10, 45)
 	hot := vlib.Pick(r, aggKinds) // hammer one kind across its boundary
 	for i := 0; i < n; i++ {
-		switch k := r.Intn(24); {
+		switch k := r.Intn(26); {
+		case k >= 24:
+			emit(genN3Op(r))
 		case k < 9:
 			kind := hot
 			if r.Chance(1, 3) {
@@ -385,6 +417,13 @@ func sizeFor(r *vlib.R, fam string, big bool) int {
 		return r.Range(3, 9)
 	case "refresh":
 		return r.Range(2, 12)
+	case "breaker":
+		return r.Range(5, 8)
+	case "nsec3":
+		if big {
+			return r.Range(26, 36)
+		}
+		return r.Range(0, 6)
 	}
 	return 3
 }
@@ -409,9 +448,53 @@ func genRefreshCase(r *vlib.R, emit func(string), p l3Plan) int {
 	return 12
 }
 
+// genBreakerCase: delegations are warmed, then n trees with a transport budget of one are refused
+// their attempt at the healthy victim authority, then an independent client needs that authority.
+func genBreakerCase(r *vlib.R, emit func(string), p l3Plan) int {
+	emit(fmt.Sprintf("l3 new breaker %d %d %s 1 0 0 %d 30", p.n, p.v, p.mode, p.qmin))
+	emit("l3 ask warm1.v.test t warm")
+	emit("l3 ask plain.w.test t warm")
+	for i := 0; i < p.n; i++ {
+		emit(fmt.Sprintf("l3 ask a%d.w.test %s %s", i, vlib.B(r.Chance(4, 5)), vlib.Pick(r, []string{"own", "own", "plain"})))
+	}
+	emit(fmt.Sprintf("l3 ask fresh%d.v.test t %s", r.Intn(100), vlib.Pick(r, []string{"own", "plain"})))
+	emit("l3 ask t.v.test t own")
+	return p.n + 5
+}
+
+// genN3Case: hashed denials. The NSEC3 allowance is the budget under test (0 = default 32): below
+// what any name-error proof costs, around what this one costs (one hash per label of the walk),
+// generous; the transport and sub-query budgets stay out of the way.
+func genN3Case(r *vlib.R, emit func(string), p l3Plan) int {
+	cap3 := vlib.Pick(r, []int{0, 0, 1, 2, r.Range(3, 6), p.n + r.Range(1, 4), 16, 64})
+	hdr := fmt.Sprintf("l3 new nsec3 %d %d %s 0 0 0 %d 30", p.n, p.v, p.mode, p.qmin)
+	if cap3 > 0 {
+		hdr += fmt.Sprintf(" n3=%d", cap3)
+	}
+	emit(hdr)
+	emit(fmt.Sprintf("l3 query t t %s", vlib.B(r.Chance(4, 5))))
+	cnt := 2
+	for i, k := 0, r.Intn(3); i < k; i++ {
+		name := vlib.Pick(r, []string{"host.n3.test", fmt.Sprintf("q%d.n3.test", r.Intn(50)), fmt.Sprintf("a.b.c%d.n3.test", r.Intn(50)), "zz.host.n3.test"})
+		emit(fmt.Sprintf("l3 ask %s t %s", name, vlib.Pick(r, []string{"own", "own", "plain"})))
+		cnt++
+	}
+	if p.mode == "enforce" && r.Chance(1, 2) {
+		emit(fmt.Sprintf("l3 again %d", r.Intn(200)))
+		cnt++
+	}
+	return cnt
+}
+
 func genL3Case(r *vlib.R, emit func(string), p l3Plan) int {
 	if p.fam == "refresh" {
 		return genRefreshCase(r, emit, p)
+	}
+	if p.fam == "breaker" {
+		return genBreakerCase(r, emit, p)
+	}
+	if p.fam == "nsec3" {
+		return genN3Case(r, emit, p)
 	}
 	hdr := fmt.Sprintf("l3 new %s %d %d %s %d %d %d %d %d", p.fam, p.n, p.v, p.mode, p.out, p.in, p.sig, p.qmin, p.maxdepth)
 	if p.opts != "" {
@@ -473,6 +556,9 @@ func planL3(r *vlib.R, fam string, v int, mode string, qmin int) l3Plan {
 	if fam == "deep" && r.Chance(1, 3) {
 		p.maxdepth = r.Range(3, 10)
 	}
+	if fam == "breaker" || fam == "nsec3" {
+		return p
+	}
 	if fam == "refresh" {
 		// the address refresh is what is metered: small sub-query / transport budgets, or defaults
 		if mode == "enforce" {
@@ -524,6 +610,19 @@ func gen(r *vlib.R, n int, tier string, emit func(string)) {
 			emitc(fmt.Sprintf("sub nest %s %d %d %d", m, c, dInt, maxQ))
 		}
 	}
+	// hashed denial: the name error proof of a.b.n3.test. costs four hashes (two climbing, the apex, the
+	// wildcard); allowances below, at and above it, with and without the memo; a second proof re-using it
+	for _, c := range []int{2, 3, 4, 5, 7} {
+		for _, memo := range []string{"f", "t"} {
+			raw := [nKinds]uint32{}
+			raw[6] = uint32(c)
+			emitc(fmt.Sprintf("ledger new enforce %s %s", u32csv(raw), dflt))
+			emitc("n3 nx apex a.b " + memo)
+			emitc("n3 nx apex c.b " + memo)
+			emitc("n3 nodata host - " + memo)
+			emitc("ledger snap")
+		}
+	}
 	// the demo shapes of the per-RRset ceiling: many signatures × colliding key tags, nothing verifies
 	for _, sk := range [][2]int{{3, 4}, {8, 4}, {12, 3}, {12, 2}} {
 		emit(fmt.Sprintf("sigs new 1 %d %d absent absent", sk[0], sk[1]))
@@ -567,6 +666,16 @@ func gen(r *vlib.R, n int, tier string, emit func(string)) {
 		{"l3 new manysig 6 1 shadow 0 0 2 5 30", "l3 query t t t"},
 		{"l3 new manysig 8 2 enforce 0 0 1000 0 30", "l3 query t t t", "l3 again 11"},
 		{"l3 new updown 7 0 enforce 6 0 0 5 30", "l3 query t f t"},
+		{"l3 new nsec3 2 0 enforce 0 0 0 0 30 n3=16", "l3 query t t t", "l3 ask host.n3.test t own"},
+		{"l3 new nsec3 2 0 enforce 0 0 0 0 30 n3=2", "l3 query t t t"},
+		{"l3 new nsec3 2 0 enforce 0 0 0 5 30 n3=2", "l3 query t t f"},
+		{"l3 new nsec3 30 0 enforce 0 0 0 0 30", "l3 query t t t"},
+		{"l3 new nsec3 1 1 enforce 0 0 0 0 30 n3=1", "l3 query t t t"},
+		{"l3 new nsec3 3 0 shadow 0 0 0 0 30 n3=2", "l3 query t t t"},
+		{"l3 new breaker 6 0 enforce 1 0 0 0 30", "l3 ask warm1.v.test t warm", "l3 ask plain.w.test t warm", "l3 ask a1.w.test t own", "l3 ask a2.w.test t own", "l3 ask a3.w.test t plain",
+			"l3 ask a4.w.test t own", "l3 ask a5.w.test f own", "l3 ask a6.w.test t own", "l3 ask fresh.v.test t own"},
+		{"l3 new breaker 6 1 enforce 1 0 0 0 30", "l3 ask warm1.v.test t warm", "l3 ask plain.w.test t warm", "l3 ask a1.w.test t own", "l3 ask a2.w.test t own", "l3 ask a3.w.test t own",
+			"l3 ask a4.w.test t own", "l3 ask a5.w.test t own", "l3 ask a6.w.test t own", "l3 ask fresh.v.test t plain"},
 		{"l3 new refresh 6 0 enforce 0 2 0 0 30", "l3 warm", "l3 advance 400", "l3 warm", "l3 advance 400", "l3 warm", "l3 advance 400", "l3 warm", "l3 advance 400", "l3 heal", "l3 query t f t", "l3 again 31"},
 		{"l3 new refresh 3 0 enforce 0 1 0 5 30", "l3 warm", "l3 advance 400", "l3 warm", "l3 advance 400", "l3 warm", "l3 advance 400", "l3 warm", "l3 advance 400", "l3 heal", "l3 query t f t"},
 		{"l3 new refresh 2 0 enforce 0 1 0 0 30", "l3 warm", "l3 advance 400", "l3 warm", "l3 advance 400", "l3 warm", "l3 advance 400", "l3 warm", "l3 advance 400", "l3 heal", "l3 query f f t"},
@@ -627,7 +736,9 @@ func gen(r *vlib.R, n int, tier string, emit func(string)) {
 			continue
 		}
 		before := count
-		switch k := r.Intn(26); {
+		switch k := r.Intn(28); {
+		case k >= 26:
+			count += genN3LedgerCase(r, emit, dflt)
 		case k >= 25:
 			// what lookup returns when no authority answered cleanly: error responses × bogus referrals × attempt errors
 			for i := 0; i < 8; i++ {
